@@ -332,7 +332,13 @@ func authenticateUser(deps ServerDeps, conn net.Conn, tag string, username strin
 		InsecureSkipVerify: true, // #nosec G402 -- Required for internal auth server communication
 	}
 	transport := &http.Transport{TLSClientConfig: tlsConfig}
-	client := &http.Client{Transport: transport}
+	// The whole exchange with the auth server is bounded (as in the SASL service):
+	// without a timeout a backend that accepts the connection and never answers
+	// keeps this session, its goroutine and its socket for ever
+	client := &http.Client{
+		Transport: transport,
+		Timeout:   10 * time.Second,
+	}
 
 	resp, err := client.Do(req)
 	if err != nil {
